@@ -1,5 +1,5 @@
 (* C08 — the bond dimension never exceeds the user's cap. *)
-From Coq Require Import List Arith QArith.
+From Coq Require Import List Arith QArith Permutation.
 Import ListNotations.
 From Yaqs Require Import Base.Num Model.RankSelect Proofs.RankSelectP.
 Local Open Scope nat_scope.
@@ -39,6 +39,12 @@ Theorem C08_every_relative_split_admissible : forall N i s thr minb maxb,
   op_ok (Nat.max maxb minb) (SplitAt i (keep_rel N s thr minb maxb)).
 Proof. exact split_rel_ok. Qed.
 Print Assumptions C08_every_relative_split_admissible.
+
+(* MPS.truncate (the only place the BUG integrator enforces the cap) re-splits every bond exactly once, whatever the
+   position of the orthogonality centre; each re-split respects the cap by C08_two_site_svd_bounded *)
+Theorem C08_truncate_covers_all_bonds : forall L c, c < L -> Permutation (map (bond_of L) (truncate_calls L c)) (seq 0 (L - 1)).
+Proof. exact truncate_covers_all_bonds. Qed.
+Print Assumptions C08_truncate_covers_all_bonds.
 
 (* non-vacuity: a cap that is not a power of the local dimension, a spectrum that wants more than the cap *)
 Example C08_cap3_example : keep_dw QN [1; 9#10; 8#10; 7#10]%Q (1#1000000)%Q 1 3 true = 3
